@@ -41,7 +41,7 @@ Definition pbn_rel (size : Z) (pm : pmap) (g : list (list Packet)) (cons : list 
 
 Definition next_loop_is_generated_subject (fuel : nat) (err : option gerr) (f1 : nat) (p : option Packet) (buf : list Z) (size : Z)
   (k : rkind) (w : mworld) : pbn_out :=
-  packetBuffer_next_loop1 mworld rkind (read_full_m wr) (parse_packet_m err_of) fuel err f1 p buf size k gsk w.
+  packetBuffer_next_loop1 mworld rkind (read_full_m wr) (parse_packet_m err_of) fuel size gsk k buf f1 w p err.
 
 Lemma next_loop_is_generated size pm g : 0 < size -> forall fuel r cons err0 f1 buf kd,
   rest_len r -> Z.of_nat (List.length buf) = size ->
